@@ -18,7 +18,6 @@ ASSUMPTIONS = ['the expected output of a record is what rsocket.frame.parse_or_i
 DECIDING_REQUIRED = ('partitions_decoded', 'splits_inside_length_prefix', 'malformed_records_fed', 'tcp_reader_runs',
                      'message_mode_messages')
 BUDGET_S = {'quick': 90, 'thorough': 1500}
-CASE_WALL_LIMIT = {'quick': 30, 'thorough': 120}
 
 
 class StepBound(Exception):
